@@ -36,3 +36,10 @@ claim("C06", "Shadow table of replaced keys with deadlines; retention before and
       "deadlines; attribution of punishments through old keys via the C08 decision table.", "online reference-model monitor with deadline-targeted virtual time", "2/C06")
 claim("C20", "Shadow of (current, pending, due) per consumer compared with stored parameters, queued record and schedule after every block; boundary-call "
       "observation of slash fraction / jail duration actually used for punishments.", "online reference-model monitor + boundary call observer", "2/C20")
+claim("C18", "Replica re-execution of recorded byte-exact histories (provider and consumers) on independent application instances in the same and in separate "
+      "processes with per-block response digests; Go race detector over concurrent replicas in the thorough tier.",
+      "replica replay with response digests (offline log comparison) + Go race detector", "2/C18")
+claim("C19", "Fault enumeration at the module boundary: every external-module call made inside launch, deletion, reward allocation and packet sending of a multi-consumer "
+      "block is made to fail once (decorated keepers installed from outside the repository), outcomes compared with the fault-free run; plus the never-errors "
+      "monitor over all generated worlds.", "fault injection at decorated keeper boundary, exhaustive over the call sites of each examined block + runtime monitor",
+      "2/C19", category="fault_enumeration")
